@@ -101,4 +101,7 @@ func TestC02(t *testing.T) {
 }
 
 // TestC02Large: see heldBackHistories.
-func TestC02Large(t *testing.T) { runHeldBack(t, hC02, "TestC02", propC02) }
+func TestC02Large(t *testing.T) {
+	runHeldBack(t, hC02, "TestC02", propC02)
+	runSeam(t, hC02, "TestC02", propC02)
+}
